@@ -281,11 +281,33 @@ func ruleC04(c *Ctx) {
 		// the in-loop returns of false
 		var falseGuards []*sym.Term
 		var loopHeader = -1
+		// the stop loop lives in initGradient itself or in a helper it was moved into: use the frame that has it
+		for _, f := range append([]*sym.Frame{fr}, collectFrames(in.Events)...) {
+			if len(f.Headers()) == 1 {
+				fr = f
+				break
+			}
+		}
+		isFalse := func(t *sym.Term) bool {
+			if b, ok := t.BoolVal(); ok && !b {
+				return true
+			}
+			if t.Op == "tuple" {
+				for _, a := range t.Args {
+					if a != nil {
+						if b, ok := a.BoolVal(); ok && !b {
+							return true
+						}
+					}
+				}
+			}
+			return false
+		}
 		for _, ev := range in.Events {
 			if ev.Kind != "return" || ev.Frame != fr || len(ev.Args) == 0 || ev.Args[0] == nil {
 				continue
 			}
-			if b, ok := ev.Args[0].BoolVal(); ok && !b {
+			if isFalse(ev.Args[0]) {
 				falseGuards = append(falseGuards, ev.Guard)
 			}
 		}
